@@ -169,13 +169,12 @@ Theorem pycode_evals_back W o :
   exists o', eval W (env_of_imports (imports W o)) (repr W o) = Some o' /\ veq true o' o = true.
 Proof.
   intros Hwf Hg. unfold guard in Hg.
-  apply andb_true_iff in Hg as [Hg Hstd]. apply andb_true_iff in Hg as [Hg Hinit]. apply andb_true_iff in Hg as [Hg Hraw].
+  apply andb_true_iff in Hg as [Hg Hstd]. apply andb_true_iff in Hg as [Hg Hinit].
   apply andb_true_iff in Hg as [Harr Himp].
   exists (norm W o). split.
   - apply eval_repr_norm; [apply imports_builtins_free; exact Himp|].
     intros u Hu. unfold ok1. repeat split.
     + eapply forallb_In; [exact Hwf|exact Hu].
-    + eapply forallb_In; [exact Hraw|exact Hu].
     + eapply forallb_In; [exact Hstd|exact Hu].
     + apply imports_resolve; assumption.
   - apply veq_norm. intros u Hu. unfold ok2. repeat split.
@@ -223,9 +222,8 @@ Proof.
     destruct Hn as [<-|[]]. left. reflexivity.
   - (* decimal *) rewrite heads_ECall in Hn. cbn [flat_map heads heads_kws app] in Hn.
     destruct Hn as [<-|[]]. eapply Self; reflexivity.
-  - (* qname *) rewrite heads_ECall in Hn. unfold raw_dq in Hn.
-    destruct (dq_safe t); cbn [flat_map heads heads_kws app] in Hn;
-      destruct Hn as [<-|[]]; eapply Self; reflexivity.
+  - (* qname *) rewrite heads_ECall in Hn. cbn [flat_map heads heads_kws app] in Hn.
+    destruct Hn as [<-|[]]. eapply Self; reflexivity.
   - (* xml *) rewrite heads_ECall, heads_map_EInt in Hn. cbn [heads_kws app] in Hn. destruct Hn as [<-|[]].
     eapply Self; reflexivity.
   - rewrite heads_ECall in Hn. unfold raw_dq in Hn.
